@@ -148,6 +148,10 @@ def no_overflow_add(p, a, b):
             for f in list(p.facts) + p.payload_facts.get(x, []):
                 if len(f) == 3 and f[0] == "lt" and f[1] == x:
                     return "x < y entails x + 1 <= y"
+        # y <= L - x (a difference that is itself checked not to underflow) => x + y <= L
+        for z in subterms(y):
+            if z[0] == "bin" and z[1] == "Sub" and unref(z[3]) == x and p.le(y, z):
+                return "y <= L - x entails x + y <= L"
         # x <= saturating_sub(e, s) => x + s <= max(e, s)
         yy = y
         cands = []
@@ -347,19 +351,23 @@ def rule_zero(env, shared):
             and b.name != m.buffered_next.name and any(tr == R.T_CHUNK and nm == "chunk_size" for tr, nm, _ in calls)
         if is_algo or is_ctor:
             targets.append(b)
-    for b in targets:
+    def positive_assertions(b):
+        """[(asserted term, set of blocks that run only after the assertion passed)] for assertions `x > 0` of b that
+        dominate all of its work"""
         ctx = env.ctx(b, F.impl_self_adt(b), None)
-        key = "ZERO.a|%s" % env.fname(b)
+        res = []
         # find a switch on (chunk_size > 0) whose false edge reaches a panic and whose true edge dominates all returns
-        good = False
         for bi, blk in enumerate(b.blocks):
             t = blk["term"]
             if t["k"] != "switch" or t.get("discr_ty") != "bool":
                 continue
             T = env.ev.operand(ctx, t["discr"])
             T = unref(T)
-            if not (T[0] == "bin" and T[1] in ("Gt", "Ne", "Ge") and unref(T[3]) in (("int", 0), ("int", 1))
-                    or T[0] == "bin" and T[1] == "Lt" and unref(T[2]) == ("int", 0)):
+            if T[0] == "bin" and T[1] in ("Gt", "Ne", "Ge") and unref(T[3]) in (("int", 0), ("int", 1)):
+                subject = unref(T[2])
+            elif T[0] == "bin" and T[1] == "Lt" and unref(T[2]) == ("int", 0):
+                subject = unref(T[3])
+            else:
                 continue
             # which successor panics?
             succs = b.succ(bi)
@@ -377,7 +385,31 @@ def rule_zero(env, shared):
                     if c is not None and not (c.name in ("chunk_size",) or c.trait == R.T_CHUNK):
                         bad = True
                 if not bad:
-                    good = True
+                    res.append((subject, set(work)))
+        return res
+
+    from r_ticket import all_callers
+    for b in targets:
+        ctx = env.ctx(b, F.impl_self_adt(b), None)
+        key = "ZERO.a|%s" % env.fname(b)
+        good = bool(positive_assertions(b))
+        if not good and not (b.info or {}).get("exported"):
+            # a crate-private helper: every caller must have asserted the very value it passes as the chunk size
+            cs_params = set()
+            for bi, t, c in b.calls():
+                if c.trait == R.T_CON and c.name == "buffered_iter" and len(t["args"]) == 2:
+                    x = unref(env.ev.operand(ctx, t["args"][1]))
+                    cs_params.add(x[1] if x[0] == "param" else None)
+            callers = all_callers(env, b.def_)
+            if callers and cs_params and None not in cs_params:
+                good = True
+                for (cb, cbi) in callers:
+                    cctx = env.ctx(cb, F.impl_self_adt(cb), None)
+                    pa = positive_assertions(cb)
+                    args = [unref(env.ev.operand(cctx, a)) for a in cb.term(cbi)["args"]]
+                    for k in cs_params:
+                        if not (k - 1 < len(args) and any(subj == args[k - 1] and cbi in work for (subj, work) in pa)):
+                            good = False
         if good:
             out.append(Ob("ZERO.a", key, "ok", b.file_line(), "chunk size > 0 is asserted before anything else happens", True))
         else:
